@@ -306,6 +306,37 @@ func (rolloutsmEngine) Gen(r *rand.Rand, idx int, tier string) any {
 		br.Deleting = chance(r, 8)
 		in.BR = br
 	}
+	// focused mode: a healthy rollout standing right at one of the gates, so that the conditions guarding the gate
+	// (BatchRelease spec/observed/Ready/batch index, pause duration, step index) are exercised one at a time
+	if idx%3 == 0 && len(in.Steps) >= 1 {
+		in.Paused, in.Disabled, in.Deleting, in.Finalizer, in.RollbackInBatch = false, false, false, true, false
+		w.Exists, w.ObsGen, w.Stable, w.Canary, w.InProgress, w.RIDLabel = true, w.Gen, "v1", "v2", true, ""
+		st.Phase, st.Prog, st.ProgStatus, st.ProgElapsed, st.Term, st.Succ = "Progressing", "InRolling", true, true, "", ""
+		cur := 1 + r.Intn(len(in.Steps))
+		sub := &RSub{ObsWlGen: w.Gen, ObsRID: "v2", Hash: "current", Stable: "v1", PTH: "v2", CanaryRev: "v2", Idx: cur, Next: cur + 1, Elapsed: chance(r, 50)}
+		if cur >= len(in.Steps) {
+			sub.Next = -1
+		}
+		sub.State = pick(r, "StepUpgrade", "StepUpgrade", "StepUpgrade", "StepPaused", "StepReady", "BeforeStepUpgrade", "StepMetricsAnalysis")
+		st.Sub = sub
+		br := &RBr{RID: "v2", FT: in.FT, Consistent: chance(r, 80), StateReady: chance(r, 75), Updated: r.Intn(n + 1), UpdatedReady: r.Intn(n + 1)}
+		for _, s := range in.Steps {
+			br.Batches = append(br.Batches, s.Replicas)
+		}
+		p := cur - 1
+		if chance(r, 15) {
+			p = maxInt(cur-2, 0)
+		}
+		br.Partition = &p
+		br.Batch = maxInt(cur-1-pick(r, 0, 0, 1, 1, 2), 0)
+		if chance(r, 10) {
+			br.Batch = cur
+		}
+		in.BR = br
+		if chance(r, 10) {
+			in.BR = nil
+		}
+	}
 	return in
 }
 
